@@ -18,6 +18,7 @@ import FerretVerif.Drv.Visibility
 import FerretVerif.Drv.Borrow
 import FerretVerif.Drv.QbeSel
 import FerretVerif.Drv.WasmSel
+import FerretVerif.Drv.WasmAlloc
 
 open FerretVerif
 
@@ -82,6 +83,7 @@ def main (args : List String) : IO UInt32 := do
   | ["retlife"] => eachLine cmdRetLife; return 0
   | ["qbe-row"] => eachLine cmdQbeRow; return 0
   | ["wasm-row"] => eachLine cmdWasmRow; return 0
+  | ["walloc"] => eachLine cmdWalloc; return 0
   | ["sched"] => eachLine cmdSched; return 0
   | ["toml-fmt"] => eachLine cmdTomlFmt; return 0
   | ["toml-parseval"] => eachLine cmdTomlParseVal; return 0
